@@ -5,6 +5,7 @@ import MediaSan.Lemmas.Meter
 import MediaSan.Lemmas.Account
 import MediaSan.Lemmas.NonInterf
 import MediaSan.Lemmas.RawSim
+import MediaSan.Lemmas.ScanReads
 namespace MediaSan.Props.C10
 open MediaSan
 
@@ -85,6 +86,57 @@ theorem C10_pad_bounded (ml off pad : Nat) (disp : Option Int) (h : Mp4.planRewr
   · split at h
     · cases h; omega
     · cases h
+
+/-- The byte ranges a run reads, against the independent walker: for EVERY input, configuration and cursor kind, every
+    range (offset, length) the MP4 sanitizer obtains from the input is disjoint from the payload of every top-level
+    box - as the walker of Spec/Mp4Walk.lean finds them, whether the walk is clean or breaks off - whose type is not
+    `ftyp` or `moov`: mdat, free, skip, meta, meco, unknown and uuid boxes are never read beyond their header.
+    (Lemmas/Reads.lean: a logic for the ranges a run reads; ScanReads.lean: header reads stay inside the header the
+    walker sees, payload reads happen only for ftyp / moov and stay inside the box, the cursor only moves forward.) -/
+theorem C10_reads_avoid_media (s : Stream) (kind : SkipKind) (cfg : Mp4.Config) (a n : Nat)
+    (h : (a, n) ∈ (Mp4.sanitizeP cfg (Mp4.fuelFor s)).readSet s kind 0) :
+    ∀ b ∈ (Spec.Mp4Walk.walkAll s 0 s.len cfg.cumulativeMdatBoxSize).boxes, b.name ≠ Mp4.ftypN → b.name ≠ Mp4.moovN →
+      a + n ≤ b.payloadOff ∨ b.endOff ≤ a :=
+  (Mp4.sanitizeP_reads s kind cfg (Mp4.fuelFor s)).out a n h
+
+/-- **Media is never inspected**, as the user sees it: two inputs of the same length that differ ONLY inside payloads of
+    top-level boxes other than `ftyp` and `moov` (as found by the independent walker in the first input) get the same
+    answer - the same error, or the same metadata bytes and the same media span.  For every input, configuration and
+    cursor kind. -/
+theorem C10_media_never_inspected (s s' : Stream) (kind : SkipKind) (cfg : Mp4.Config) (hlen : s'.len = s.len)
+    (hdiff : ∀ i, s'.get i ≠ s.get i →
+      ∃ b ∈ (Spec.Mp4Walk.walkAll s 0 s.len cfg.cumulativeMdatBoxSize).boxes, b.name ≠ Mp4.ftypN ∧ b.name ≠ Mp4.moovN ∧
+        b.payloadOff ≤ i ∧ i < b.endOff) :
+    Mp4.sanitize s' kind cfg = Mp4.sanitize s kind cfg :=
+  Mp4.media_never_inspected s kind s' cfg hlen hdiff
+
+def tinyFile : Bytes :=
+  [0,0,0,20, 0x66,0x74,0x79,0x70, 0x69,0x73,0x6f,0x6d, 0,0,0,0, 0x69,0x73,0x6f,0x6d,
+   0,0,0,12, 0x6d,0x64,0x61,0x74, 1,2,3,4,
+   0,0,0,56, 0x6d,0x6f,0x6f,0x76,
+   0,0,0,48, 0x74,0x72,0x61,0x6b,
+   0,0,0,40, 0x6d,0x64,0x69,0x61,
+   0,0,0,32, 0x6d,0x69,0x6e,0x66,
+   0,0,0,24, 0x73,0x74,0x62,0x6c,
+   0,0,0,16, 0x73,0x74,0x63,0x6f, 0,0,0,0, 0,0,0,0]
+-- Non-vacuity: this one-entry file (ftyp, mdat, moov) has an mdat box with a non-empty payload (offsets 28..31), so
+-- `hdiff` of `C10_media_never_inspected` allows changes there; and changing those four bytes indeed changes nothing
+example : (Spec.Mp4Walk.walkAll (Stream.ofBytes tinyFile) 0 88 none).boxes.any
+    (fun b => decide (b.name = Mp4.mdatN ∧ b.payloadOff = 28 ∧ b.endOff = 32)) = true := by decide +kernel
+def tinyFile' : Bytes :=
+  [0,0,0,20, 0x66,0x74,0x79,0x70, 0x69,0x73,0x6f,0x6d, 0,0,0,0, 0x69,0x73,0x6f,0x6d,
+   0,0,0,12, 0x6d,0x64,0x61,0x74, 9,9,9,9,
+   0,0,0,56, 0x6d,0x6f,0x6f,0x76,
+   0,0,0,48, 0x74,0x72,0x61,0x6b,
+   0,0,0,40, 0x6d,0x64,0x69,0x61,
+   0,0,0,32, 0x6d,0x69,0x6e,0x66,
+   0,0,0,24, 0x73,0x74,0x62,0x6c,
+   0,0,0,16, 0x73,0x74,0x63,0x6f, 0,0,0,0, 0,0,0,0]
+example : (match Mp4.sanitize (Stream.ofBytes tinyFile') .seekable {} with
+    | .ok r1 => (match Mp4.sanitize (Stream.ofBytes tinyFile) .seekable {} with
+      | .ok r2 => decide (r1.data = r2.data) && r1.metadata.isSome && (r1.metadata == r2.metadata)
+      | _ => false)
+    | _ => false) = true := by decide +kernel
 
 -- Non-vacuity
 example : Mp4.planRewrite 100 200 = .ok (100, none) ∧ Mp4.planRewrite 100 201 = .ok (0, some (-101)) := by decide
